@@ -630,6 +630,19 @@ def t_loop_progress(facts, res, tier):
                     if pushes and not shrinks and not rebinds and not exits and (mm.group(2) != "!=" or len(pushes) == 1):
                         sample["measures"] = sorted(set(found) | {"fill-to-length:%s.len()->%s" % (vec, bound)})
                         res.inst(rid, True, sample)
+                        # the loop ends, but after `bound` allocations: a length read from the source is limited first
+                        # (`if bound > <constant> { return Err(..) }` earlier in the function), or memory is what ends it
+                        line = int(str(node.get("loc", "0")).split(":")[0])
+                        limits = [x for x in walk(fn["body"]) if x.get("k") == "if" and x.get("else") is None
+                                  and re.match(r"^%s>=?(0x[0-9a-fA-F_]+|\d[\d_]*)(usize)?$" % re.escape(bound), expr_text(x["cond"]).replace(" ", "").strip("()"))
+                                  and int(str(x.get("loc", "0")).split(":")[0]) < line
+                                  and any(y.get("k") == "return" for y in walk(x["then"]))]
+                        sample["length_limited_by"] = [expr_text(x["cond"]) for x in limits]
+                        if not limits:
+                            res.fail(rid + ":fill-unbounded", facts.where(fn, node),
+                                     "%s pushes onto `%s` until it has `%s` elements, and nothing limits `%s` first: a length written in the source "
+                                     "(`const char s[2000000000] = \"a\"`) is allocated element by element until the process is killed" % (fn["name"], vec, bound, bound),
+                                     sample)
                         continue
             res.inst(rid, True, sample)
             if rearmed:
